@@ -58,42 +58,43 @@ Proof.
   destruct R as [ls [F E]]. exists ls. split; [|exact E]. eapply Forall_impl; [|exact F]. intros a [X _]. exact X.
 Qed.
 
-(* ---- S1: persistent queue, block_on_overflow, request larger than the capacity --------------------- *)
+(* ---- REPAIRED finding S1 (fix f7a3004ea): the former witnesses, replayed on the repaired code ------------------
+   A persistent queue with block_on_overflow now refuses a request larger than the capacity (errSizeTooLarge) like
+   the in-memory queue; nothing is parked, nothing is stolen. *)
 Definition s1_cfg : cfg := {| kind := Pers; cap := 1; blocking := true; wfr := false |}.
 
-Lemma blocked_on_empty_queue_refuted_l :
-  exists c s, kind c = Pers /\ 0 < cap c /\ reachable c s /\ quiescent c s /\ lock s = Free /\
-    size s = 0 /\ items s = [] /\ inflight s = [] /\ acc s = [] /\
-    pget 0%nat (prods s) = Some (PInSelect 2) /\ ~ In 0%nat (cancelled s) /\ ~ all_returned s.
+Lemma oversized_offer_refused_witness_l :
+  let s := final s1_cfg [LOffer 0 2] in
+  run s1_cfg init [LOffer 0 2] = Some s /\ quiescent s1_cfg s /\ all_returned s /\
+  pget 0%nat (prods s) = Some (PRet RTooLarge) /\ waiting s = 0 /\ size s = 0 /\ acc s = [].
 Proof.
-  exists s1_cfg, (final s1_cfg [LOffer 0 2]).
-  split; [reflexivity|]. split; [simpl; lia|]. split.
-  { exists [LOffer 0 2]. split; [repeat constructor; simpl; intros; lia|reflexivity]. }
-  split.
-  { intros l Hi. destruct l; try discriminate Hi; try reflexivity; try (destruct p as [|p]; reflexivity). }
-  vm_compute. repeat split; try reflexivity; try tauto.
-  intros H. destruct (H 0%nat (PInSelect 2) eq_refl) as [r E]. discriminate.
+  split; [vm_compute; reflexivity|]. split.
+  { intros l Hi. destruct l; try discriminate Hi; try (vm_compute; reflexivity); try (destruct p as [|p]; vm_compute; reflexivity);
+      try (destruct k as [|k]; vm_compute; reflexivity). }
+  split. { intros p v. destruct p as [|p]; vm_compute; intros H; inversion H; eauto. }
+  vm_compute. repeat split; reflexivity.
 Qed.
 
-(* ... and the oversized waiter also steals the wake-ups of waiters that DO fit: producer 1 (size 1,
-   capacity 4) stays blocked on an empty queue because both Signals were consumed by producer 2 (size 8). *)
+(* the former "stolen wake-up" history: the oversized request (producer 2) is refused at once, the two Signals of
+   the draining queue reach producer 1, whose request fits *)
 Definition s1b_cfg : cfg := {| kind := Pers; cap := 4; blocking := true; wfr := false |}.
 Definition s1b_trace : list label :=
-  [LOffer 0 4; LOffer 1 1; LOffer 2 8; LRead; LSelTok 2; LRelockTok 2; LDone 0 0; LSelTok 2; LRelockTok 2].
+  [LOffer 0 4; LOffer 1 1; LOffer 2 8; LRead; LSelTok 1; LRelockTok 1; LDone 0 0; LRead; LDone 1 0].
 
-Lemma s1_steals_wakeups_l :
-  exists c s, kind c = Pers /\ reachable c s /\ quiescent c s /\ lock s = Free /\
-    size s = 0 /\ items s = [] /\ inflight s = [] /\
-    pget 1%nat (prods s) = Some (PInSelect 1) /\ 1 <= cap c /\ ~ In 1%nat (cancelled s).
+Lemma oversized_no_longer_steals_witness_l :
+  let s := final s1b_cfg s1b_trace in
+  run s1b_cfg init s1b_trace = Some s /\ quiescent s1b_cfg s /\ lock s = Free /\ all_returned s /\
+  pget 2%nat (prods s) = Some (PRet RTooLarge) /\ pget 1%nat (prods s) = Some (PRet ROk) /\
+  hand s = [0; 1]%nat /\ size s = 0 /\ waiting s = 0 /\ tok s = false.
 Proof.
-  exists s1b_cfg, (final s1b_cfg s1b_trace).
-  split; [reflexivity|]. split.
-  { exists s1b_trace. split; [unfold s1b_trace; repeat constructor; simpl; intros; lia|vm_compute; reflexivity]. }
-  split.
+  split; [vm_compute; reflexivity|]. split.
   { intros l Hi. destruct l; try discriminate Hi; try (vm_compute; reflexivity);
       try (destruct p as [|[|[|p]]]; vm_compute; reflexivity);
-      try (destruct id as [|[|[|id]]]; vm_compute; reflexivity). }
-  vm_compute. repeat split; try reflexivity; try tauto. intros; discriminate.
+      try (destruct id as [|[|[|id]]]; vm_compute; reflexivity);
+      try (destruct k as [|[|[|k]]]; vm_compute; reflexivity). }
+  split; [vm_compute; reflexivity|]. split.
+  { intros p v. destruct p as [|[|[|p]]]; vm_compute; intros H; inversion H; eauto. }
+  vm_compute. repeat split; reflexivity.
 Qed.
 
 (* ---- observation (allowed by the property's wording): the persistent queue's reported size can
@@ -108,32 +109,31 @@ Proof.
   vm_compute. auto.
 Qed.
 
-(* ---- C02-FAULTY-WAITER-STEALS-WAKEUP: with block_on_overflow on a persistent queue, a parked producer whose
-   request cannot be stored (Marshal / storage-write error) consumes the wake-up token it receives and returns its
-   error WITHOUT passing the wake-up on (putInternal's error paths do not Signal).  Two such producers swallow the
-   two Signals of the draining queue (size reset in Read, OnDone); producer 3, whose request fits, stays parked for
-   ever on an empty, idle queue although every request offered fits the capacity. *)
+(* ---- REPAIRED finding C02-FAULTY-WAITER-STEALS-WAKEUP (fix 03fbf1134): the former witness, replayed on the
+   repaired code.  The two producers whose request cannot be stored now pass the wake-up on; producer 3 receives the
+   token from producer 1, is admitted, handed over and finished; producer 2 is woken by the completions, fails and
+   its own Signal finds nobody waiting (a no-op).  The run ends quiescent with everybody returned. *)
 Definition fw_cfg : cfg := {| kind := Pers; cap := 2; blocking := true; wfr := false |}.
 Definition fw_trace : list label :=
   [LOffer 0 2; LOfferF 1 1 c_marshal; LOfferF 2 1 c_storeerr; LOffer 3 1; LRead; LSelTok 1; LRelockTok 1;
-   LDone 0 0; LSelTok 2; LRelockTok 2].
+   LSelTok 3; LRelockTok 3; LDone 0 0; LSelTok 2; LRelockTok 2; LRead; LDone 3 0].
 
-Lemma faulty_waiter_steals_wakeup_refuted_l :
-  exists c s, kind c = Pers /\ blocking c = true /\ run c init fw_trace = Some s /\
-    Forall (fit_label c) fw_trace /\
-    quiescent c s /\ lock s = Free /\ size s = 0 /\ items s = [] /\ inflight s = [] /\ tok s = false /\
-    waiting s = 1 /\ hand s = [0%nat] /\ fin s = [(0%nat, 0)] /\
+Lemma faulty_waiter_passes_wakeup_witness_l :
+  exists s, run fw_cfg init fw_trace = Some s /\ reachable_fit fw_cfg s /\
+    quiescent fw_cfg s /\ lock s = Free /\ all_returned s /\ size s = 0 /\ tok s = false /\ waiting s = 0 /\
+    acc s = [0; 3]%nat /\ hand s = [0; 3]%nat /\
     pget 1%nat (prods s) = Some (PRet (RErr c_marshal)) /\ pget 2%nat (prods s) = Some (PRet (RErr c_storeerr)) /\
-    pget 3%nat (prods s) = Some (PInSelect 1) /\ 1 <= cap c /\ ~ In 3%nat (cancelled s) /\ ~ all_returned s.
+    pget 3%nat (prods s) = Some (PRet ROk).
 Proof.
-  exists fw_cfg, (final fw_cfg fw_trace).
-  split; [reflexivity|]. split; [reflexivity|]. split; [vm_compute; reflexivity|].
-  split; [unfold fw_trace; repeat constructor; simpl; intros; lia|].
+  exists (final fw_cfg fw_trace).
+  split; [vm_compute; reflexivity|]. split.
+  { exists fw_trace. split; [unfold fw_trace; repeat constructor; simpl; intros; lia|vm_compute; reflexivity]. }
   split.
   { intros l Hi. destruct l; try discriminate Hi; try (vm_compute; reflexivity);
       try (destruct p as [|[|[|[|p]]]]; vm_compute; reflexivity);
       try (destruct id as [|[|[|[|id]]]]; vm_compute; reflexivity);
       try (destruct k as [|[|[|[|k]]]]; vm_compute; reflexivity). }
-  vm_compute. repeat split; try reflexivity; try tauto; try (intros; discriminate).
-  intros H. destruct (H 3%nat (PInSelect 1) eq_refl) as [r E]. discriminate.
+  split; [vm_compute; reflexivity|]. split.
+  { intros p v. destruct p as [|[|[|[|p]]]]; vm_compute; intros H; inversion H; eauto. }
+  vm_compute. repeat split; reflexivity.
 Qed.
